@@ -34,7 +34,7 @@ ASSUMPTIONS = ["deletions from inside act remove the acting agent itself or an a
                "population changes happen between steps and in the two round hooks only, never inside act",
                "order is checked only between events sent to the same agent in the same step and handled in the same step"]
 FAULT_KINDS = ["handler_raised", "agent_deleted_with_events_in_flight", "reconfiguration_with_events_in_flight", "send_to_dead_id", "delayed_event"]
-PROBES = ["equal_events_sent_several_times", "event_without_handler", "model_reset_with_events_in_flight", "deletion_inside_act", "sent_from_round_hook", "broadcast_event", "event_to_deleted_agent", "event_after_ids_shifted", "delayed_odd_wait", "non_multiple_delay", "two_events_same_agent_same_step",
+PROBES = ["sd_equation_edited_inside_act", "event_forwarded_at_receipt", "equal_events_sent_several_times", "event_without_handler", "model_reset_with_events_in_flight", "deletion_inside_act", "sent_from_round_hook", "broadcast_event", "event_to_deleted_agent", "event_after_ids_shifted", "delayed_odd_wait", "non_multiple_delay", "two_events_same_agent_same_step",
           "delete_in_begin_hook_after_distribution", "decimal_dt_delay"]
 EXHAUSTIVE = {"quick": False, "thorough": False}
 
@@ -104,6 +104,10 @@ def generate(spec):
                           "name": rng.choice(["ping", "pong", "ping", "pong", "noise"])})   # nobody has a handler for "noise"
             if rng.random() < 0.06:
                 sends[-1]["copies"] = rng.choice([2, 2, 3])       # the same message sent several times: equal events are still separate events
+            elif rng.random() < 0.06 and delay is None and sends[-1]["name"] != "noise":
+                # the receiver is a dispatcher: it forwards the event to somebody else the moment it RECEIVES it
+                uid += 1
+                sends[-1]["fwd"] = {"to": rng.randrange(0, next_id + 1), "uid": uid}
     # deletions from inside act (the acting agent itself, or one created before it: both have already
     # handled their events and acted in this step)
     acts = []
@@ -112,6 +116,11 @@ def generate(spec):
             if rng.random() < 0.08 and next_id > 1:
                 a = rng.randrange(0, next_id)
                 acts.append({"k": k, "by": a, "op": "delete", "id": rng.choice([a, a, rng.randrange(0, a + 1)])})
+    if rng.random() < 0.2:
+        # a hybrid model: some agent edits an SD equation from inside its act (the SD cache is reset, nothing else)
+        for k in range(1, steps + 1):
+            if rng.random() < 0.2:
+                acts.append({"k": k, "by": rng.randrange(0, max(1, next_id)), "op": "sd_edit", "id": None, "value": rng.choice([1.0, 2.5, 7.0])})
     # events sent by the model itself from inside the round hooks, incl. broadcasts to all agents of a type
     hook_sends = []
     for k in range(1, steps + 1):
@@ -184,6 +193,10 @@ def execute(case):
             res.probe("broadcast_event")
     acts_at = {}
     for a in case.get("acts", ()):
+        if a["op"] == "sd_edit":
+            w.act_ops.setdefault((a["k"], a["by"]), []).append({"op": "sd_edit", "value": a["value"]})
+            res.probe("sd_equation_edited_inside_act")
+            continue
         w.act_ops.setdefault((a["k"], a["by"]), []).append({"op": a["op"], "id": a["id"]})
         acts_at.setdefault(a["k"], []).append(a)
         res.probe("deletion_inside_act")
@@ -268,6 +281,7 @@ def execute(case):
     any_delayed = False
     n_dead = 0
     noise = {s_["uid"] for s_ in case["sends"] if s_.get("name") == "noise"}
+    fwd_uids = {s_["fwd"]["uid"] for s_ in case["sends"] if s_.get("fwd")}
     mult = {}
     for (_, uid_, _, _) in w.sent:
         mult[uid_] = mult.get(uid_, 0) + 1
@@ -278,6 +292,8 @@ def execute(case):
         m_ = mult[uid]
         if m_ > 1:
             res.probe("equal_events_sent_several_times")
+        if uid in fwd_uids:
+            res.probe("event_forwarded_at_receipt")
         if uid in noise:
             res.probe("event_without_handler")
             if handled_by_uid.get(uid):
